@@ -718,6 +718,7 @@ type owned struct {
 	nocopy bool
 	in     int
 	live   bool
+	bulk   bool // one of a row of pooled decodes: examined when given back
 }
 
 // base is the address of the first byte of the packet's data (0 for a packet
@@ -755,6 +756,17 @@ func simC04(c *sim.Ctx) {
 		for k := 4 + c.Draw(10); k > 0; k-- {
 			plans[w] = append(plans[w], op{c.Weighted(10, 6, 4, 4, 1), c.Draw(len(inputs)), c.Draw(5)})
 		}
+	}
+	if c.Chance(50) {
+		// a large working set: one goroutine holds many pooled packets at once,
+		// gives them all back and decodes as many again (whatever free list,
+		// ring or cache sits behind the pool gets filled and drained)
+		n := 20 + c.Draw(200)
+		plans[0] = append(append([]op{{5, c.Draw(len(inputs)), n}}, plans[0]...), op{6, 0, 0}, op{5, c.Draw(len(inputs)), n + c.Draw(3)})
+		if c.Chance(300) {
+			plans[0] = append(plans[0], op{6, 0, 0}, op{5, c.Draw(len(inputs)), n})
+		}
+		c.Fault("large_pooled_working_set")
 	}
 	// mailboxes for handing packets to another worker (one real atomic each)
 	mail := make([]atomic.Pointer[owned], nw)
@@ -826,6 +838,37 @@ func simC04(c *sim.Ctx) {
 						}
 					}
 					own[wi] = append(own[wi], ow)
+				case 5: // many pooled decodes in a row, all kept
+					if overwritten[o.a].Load() {
+						continue
+					}
+					for k := 0; k < o.b; k++ {
+						p := gopacket.NewPacket(inputs[o.a], firsts[o.a], gopacket.DecodeOptions{Pool: true})
+						ow := &owned{p: p, in: o.a, live: true, bulk: true}
+						_, ow.pooled = p.(gopacket.PooledPacket)
+						ow.sig = signature(p)
+						if ow.sig != refsig[o.a] {
+							fail("same-result", "options-change-result", "NewPacket", "input %d (%d bytes) decoded with Pool as number %d of a row differs from the default decode:\n got %q\nwant %q", o.a, len(inputs[o.a]), k, ow.sig, refsig[o.a])
+						}
+						if ow.pooled {
+							for _, q := range own[wi] {
+								if q.live && q.pooled && base(p) != 0 && base(q.p) == base(p) {
+									fail("pool", "shared-backing-memory", "NewPacket", "two undisposed pooled packets (inputs %d and %d) share one pool block", q.in, o.a)
+								}
+							}
+						}
+						own[wi] = append(own[wi], ow)
+					}
+					w.Rec("decode-row", int64(o.a), int64(o.b), 0, "", nil)
+				case 6: // give back every pooled packet of the row
+					for _, q := range own[wi] {
+						if q.live && q.pooled && q.bulk {
+							check(q, "before its own disposal")
+							q.live = false
+							q.p.(gopacket.PooledPacket).Dispose()
+						}
+					}
+					w.Rec("dispose-row", 0, 0, 0, "", nil)
 				case 1: // dispose one of my pooled packets, exactly once
 					for _, q := range own[wi] {
 						if q.live && q.pooled {
@@ -872,7 +915,8 @@ func simC04(c *sim.Ctx) {
 					}
 				}
 				for _, q := range own[wi] {
-					if q.live {
+					// (the packets of a row are looked at when they are given back)
+					if q.live && !q.bulk {
 						check(q, "while other goroutines decode and dispose")
 					}
 				}
@@ -914,6 +958,11 @@ func simC04(c *sim.Ctx) {
 		c.Probe("two_pooled_packets_live")
 	}
 	for _, q := range live {
+		if q.bulk {
+			if got := signature(q.p); got != q.sig {
+				c.Fail("isolation", "packet-changed", "NewPacket", "a packet decoded from input %d (pooled) changed while it was held undisposed:\n got %q\nwant %q", q.in, got, q.sig)
+			}
+		}
 		q.p.(gopacket.PooledPacket).Dispose()
 	}
 }
